@@ -580,4 +580,37 @@ theorem none_over_immutable_field_example :
         (.setattr "b" .none)).1 exNone = true := by
   decide
 
+/-! ### fields with defaults -/
+
+def exD : EqCtx := { defaults := [("b", .int 0)], fields := ["a", "b"] }
+
+/-- findings `eq-not-hash:default-vs-absent@…`: a field with a default that is absent from
+    `__dict__` (explicit `None` swallowed by the constructor of an `_ignore_none` class, or deleted
+    later) reads its default, so the instance `==` one that holds the default — but `__str__` /
+    `__hash__` see `__dict__` only.  The pair is outside `sameSpellI` (different attribute names). -/
+theorem eq_hash_counterexample_default_absent :
+    instEq exD { cls := "C", attrs := [("a", .int 1)] } { cls := "C", attrs := [("a", .int 1), ("b", .int 0)] } = true
+    ∧ instEq exD { cls := "C", attrs := [("a", .int 1), ("b", .int 0)] } { cls := "C", attrs := [("a", .int 1)] } = true
+    ∧ (hashKey exR { cls := "C", attrs := [("a", .int 1)] }
+        == hashKey exR { cls := "C", attrs := [("a", .int 1), ("b", .int 0)] }) = false
+    ∧ sameSpellI { cls := "C", attrs := [("a", .int 1)] } { cls := "C", attrs := [("a", .int 1), ("b", .int 0)] } = false
+    ∧ (stepI Generated.wrappers exO exUC exUFields { cls := "C", attrs := [("a", .int 1), ("b", .int 0)] }
+        (.delitem "b")).1.attrs = [("a", .int 1)] := by
+  refine ⟨by decide, by decide, by decide, by decide, by rfl⟩
+
+/-- finding `eq-vs-readback:explicit-none-reads-default`: on an `_enable_undefined_value` class a
+    defaulted field recorded as explicitly `None` reads the default: every name reads back the same
+    as on the instance where the default was applied, yet the two are `!=` -/
+theorem explicit_none_reads_default_counterexample :
+    instEq exD { cls := "C", attrs := [("a", .int 1)], nones := ["b"], undef := true }
+               { cls := "C", attrs := [("a", .int 1), ("b", .int 0)], undef := true } = false
+    ∧ ∀ k, PyVal.pyEq (getA exD { cls := "C", attrs := [("a", .int 1)], nones := ["b"], undef := true } k)
+                      (getA exD { cls := "C", attrs := [("a", .int 1), ("b", .int 0)], undef := true } k) = true := by
+  refine ⟨by decide, fun k => ?_⟩
+  by_cases ha : k = "a"
+  · subst ha; decide
+  · by_cases hb : k = "b"
+    · subst hb; decide
+    · simp [getA, lookup, ha, hb, exD, undefinedV, PyVal.pyEq]
+
 end Typedpy.C11
